@@ -55,7 +55,8 @@ class Prog:
     def _node(self, k: str, **fields) -> int:
         self._nid += 1
         n = {"id": self._nid, "k": k}
-        n.update({a: b for a, b in fields.items() if b is not None or a in ("dflt", "dom", "rest")})
+        n.update({a: b for a, b in fields.items()
+                  if b is not None or a not in ("wrap", "h", "bare", "factory", "identity")})
         self.nodes.append(n)
         return self._nid
 
